@@ -41,6 +41,8 @@ func init() {
 }
 
 func runC01(p *Prog, r *Report) {
+	r.Rule("D9-path-boundary", "tests for 'leaves the root' respect the path-component boundary")
+	dotdotBoundary(p, r, "D9-path-boundary", "extractor/filesystem", "extractor/filesystem/internal")
 	r.Rule("D4-decision-table", "the skip predicate is exactly the disjunction of the five configured skip rules")
 	defer c01SkipTable(p, r)
 	r.Rule("D1-dispatch", "Extract only on the extractor whose FileRequired just returned true")
@@ -68,6 +70,7 @@ func runC01(p *Prog, r *Report) {
 	c01Attribution(p, r, e)
 	c01Walker(p, r, e)
 	c01Same(p, r, e)
+	c01ParentPatternsReset(p, r, e, "D8-same")
 	r.Rule("D5-balanced", "gitignore push/pop balanced: patterns of skipped directories never unbalance the stack")
 	c08Balanced(p, r, e, "D5-balanced")
 }
